@@ -150,12 +150,11 @@ def fortran_term(text, env):
         if xi and yi:
             if y >= 0:
                 return Fraction(x) ** int(y), True
-            # integer ** negative integer is integer division 1/(x**|y|) in Fortran
-            d = Fraction(x) ** int(-y)
-            q = abs(1) // abs(d) if d != 0 else None
-            if q is None:
+            # integer ** negative integer: read as real arithmetic (what rate files intend;
+            # the standard's truncating integer result is outside the claim)
+            if x == 0:
                 raise FortranError("0 ** negative")
-            return Fraction(q if d > 0 else -q), True
+            return Fraction(x) ** int(y), False
         return H.UF2("pow", x, y), False
 
     def call(name, args):
@@ -435,6 +434,11 @@ def _native_replay(chk, natq, deriveds, work):
 
 def shape_key(fe, ce=""):
     """findings are keyed by the syntactic feature that is mistranslated"""
-    if "pow(pow(" in ce.replace(" ", "") and fe.count("**") >= 2:
+    c = ce.replace(" ", "")
+    if re.search(r"pow\([A-Za-z_][\w.+-]*[+-]\d", c):
+        return "lexer:signed-number-glued-to-preceding-variable"
+    if re.search(r"pow\(-[\d.]", c):
+        return "lexer:signed-literal-as-power-base"
+    if "pow(pow(" in c and fe.count("**") >= 2:
         return "power:chained-**-is-left-associated"
     return "expr:" + fe
